@@ -3,6 +3,7 @@ package props
 import (
 	"fmt"
 	"reflect"
+	"strings"
 
 	"go.pennock.tech/tabular"
 	"go.pennock.tech/tabular/csv"
@@ -36,7 +37,14 @@ func sameItem(a, b interface{}) bool {
 			return true
 		}
 	}
-	return reflect.DeepEqual(a, b)
+	if reflect.DeepEqual(a, b) {
+		return true
+	}
+	// NaN is not equal to itself, neither for == nor for DeepEqual: fall back to the printed form for values holding one
+	if pa := fmt.Sprintf("%#v", a); strings.Contains(pa, "NaN") && pa == fmt.Sprintf("%#v", b) {
+		return true
+	}
+	return false
 }
 
 func c01Observe(c *Ctx, cell *tabular.Cell, item interface{}, want string, spec *gen.ItemSpec, when string) bool {
@@ -204,7 +212,7 @@ func init() {
 		Phases: []Phase{
 			{Name: "64 generated types x by-value/by-pointer x 4 field patterns", Exhaustive: true, N: Fixed(nt*2*4, nt*2*4), Run: c01Types},
 			{Name: "36 fixed basic items bare / in Cell / in *Cell", Exhaustive: true, N: Fixed(len(c01Fixed)*3, len(c01Fixed)*3), Run: c01FixedRun},
-			{Name: "random items from the whole zoo", N: Fixed(5000, 500000), Run: func(c *Ctx, i int, r *gen.R) {
+			{Name: "random items from the whole zoo", N: Fixed(5000, 5000000), Run: func(c *Ctx, i int, r *gen.R) {
 				spec := r.AnyItem(c01Fam, 6, 3)
 				c01Check(c, &spec, r)
 			}},
